@@ -336,6 +336,18 @@ pub fn run_blocks(job: &Value, t: &mut Trace) -> usize {
                     ev["written"] = Value::from(out.iter().map(|x| *x as i64).collect::<Vec<_>>());
                 }
                 ev["written_len"] = json!(out.len() as i64);
+                // write_blocks takes any iterator: its output must not depend on the iterator's size hints (a filter that drops a
+                // trailing block has a loose upper bound, from_fn has none)
+                {
+                    let mut o2 = vec![];
+                    let mut it = built.iter();
+                    let r2 = catch(|| write_blocks(&mut o2, std::iter::from_fn(|| it.next())));
+                    let mut o3 = vec![];
+                    let extra = Block::Padding(flac_codec::metadata::Padding { size: 7u32.try_into().unwrap() });
+                    let n_real = built.len();
+                    let r3 = catch(|| write_blocks(&mut o3, built.iter().chain(std::iter::once(&extra)).enumerate().filter(|(i, _)| *i < n_real).map(|(_, b)| b)));
+                    ev["iter_shapes_same"] = json!(matches!(r2, Ok(Ok(()))) && matches!(r3, Ok(Ok(()))) && o2 == out && o3 == out);
+                }
                 match catch(|| read_blocks(Cursor::new(&out[..])).collect::<Result<Vec<Block>, _>>()) {
                     Ok(Ok(back)) => {
                         // the same bytes through sources that deliver less than asked for (a BufReader does so whenever a request
